@@ -424,6 +424,9 @@ fn watchdog_trip(ctx: &Ctx, label: &str, case: &Value) -> ! {
         label,
         path.display()
     );
+    // exit() runs no destructors: child processes (language servers, CLI runs, nesting children,
+    // fuzz binaries) would be left behind - possibly spinning, if a hang is what tripped the watchdog
+    let _ = std::process::Command::new("pkill").args(["-KILL", "-P", &std::process::id().to_string()]).status();
     std::process::exit(2);
 }
 
